@@ -147,7 +147,7 @@ def handle (op : String) (j : Json) : R Json := do
     -- it lowers for the compiler model
     let p ← programOf (← fld j "prog")
     let core ← Drv.BehD.programOf (← fld j "core")
-    pure (Json.mkObj [("agree", .bool (srcAgrees (toSrc p) core)), ("f0", .bool (decide (F0Prog p))), ("f1", .bool (decide (CgProg 1 p))), ("f2", .bool (decide (CgProg 2 p))), ("f3", .bool (decide (CgProg 3 p)))])
+    pure (Json.mkObj [("agree", .bool (srcAgrees (toSrc p) core)), ("f0", .bool (decide (F0Prog p))), ("f1", .bool (decide (CgProg 1 p))), ("f2", .bool (decide (CgProg 2 p))), ("f3", .bool (decide (CgProg 3 p))), ("f4", .bool (decide (CgProg 4 p)))])
   | "comp.backend" =>
     let rs ← (← asArr (← fld j "routines")).mapM fun r => do (← asArr r).mapM itemOf
     pure (resultTo (backend rs) [] [])
